@@ -39,3 +39,35 @@ Print Assumptions C06_master_key_never_changes.
 Theorem C06_example : inv_enc (exec init_state enc_example_ops).
 Proof. exact enc_example_inv. Qed.
 Print Assumptions C06_example.
+
+(* ---- the functions that create key objects, regenerated whole in trace mode (gen/Gen_Keys.v, coq/P11/KeyGenFacts.v) ---- *)
+From SoftHSM Require Import Gen_Keys KeyGenSpec KeyGenFacts.
+
+(* the five secret-key generators of SoftHSM.cpp, regenerated whole on every run (gen/Gen_Keys.v): for every environment, the
+   CKA_VALUE they store is what Token::encrypt returned for the key bits exactly when the object is private *)
+Theorem C06_generated_key_value_encrypted_iff_private :
+  (forall (e : generateAES.env) v, In (CKA_VALUE, v) (snd (generateAES.app e)) ->
+     v = if generateAES.isPrivate e =? 0 then generateAES.key_getKeyBits e else generateAES.token_encrypt_out_value e (generateAES.key_getKeyBits e)) /\
+  (forall (e : generateDES.env) v, In (CKA_VALUE, v) (snd (generateDES.app e)) ->
+     v = if generateDES.isPrivate e =? 0 then generateDES.key_getKeyBits e else generateDES.token_encrypt_out_value e (generateDES.key_getKeyBits e)) /\
+  (forall (e : generateDES2.env) v, In (CKA_VALUE, v) (snd (generateDES2.app e)) ->
+     v = if generateDES2.isPrivate e =? 0 then generateDES2.key_getKeyBits e else generateDES2.token_encrypt_out_value e (generateDES2.key_getKeyBits e)) /\
+  (forall (e : generateDES3.env) v, In (CKA_VALUE, v) (snd (generateDES3.app e)) ->
+     v = if generateDES3.isPrivate e =? 0 then generateDES3.key_getKeyBits e else generateDES3.token_encrypt_out_value e (generateDES3.key_getKeyBits e)) /\
+  (forall (e : generateGeneric.env) v, In (CKA_VALUE, v) (snd (generateGeneric.app e)) ->
+     v = if generateGeneric.isPrivate e =? 0 then generateGeneric.symKey_getKeyBits e else generateGeneric.token_encrypt_out_value e (generateGeneric.symKey_getKeyBits e)).
+Proof. exact generated_value_encrypted_iff_private. Qed.
+Print Assumptions C06_generated_key_value_encrypted_iff_private.
+
+(* C_UnwrapKey regenerated whole (gen/Gen_Keys.v): the secret value it stores for a private object is an output of Token::encrypt
+   (first clause); the other clauses are the history attributes of the new key (C08, C13) *)
+Theorem C06_unwrapped_key_value_encrypted_when_private : forall (e : C_UnwrapKey.env),
+  (forall v, In (CKA_VALUE, v) (snd (C_UnwrapKey.app e)) -> C_UnwrapKey.hv1_isPrivate e <> 0 -> exists x, v = C_UnwrapKey.token_encrypt_out_value e x) /\
+  (forall v, In (CKA_LOCAL, v) (snd (C_UnwrapKey.app e)) -> v = 0) /\
+  (forall v, In (CKA_ALWAYS_SENSITIVE, v) (snd (C_UnwrapKey.app e)) -> v = 0) /\
+  (forall v, In (CKA_NEVER_EXTRACTABLE, v) (snd (C_UnwrapKey.app e)) -> v = 0) /\
+  (fst (C_UnwrapKey.app e) = 0 -> (C_UnwrapKey.hv1_objClass e = CKO_SECRET_KEY -> exists v, In (CKA_VALUE, v) (snd (C_UnwrapKey.app e))) /\
+     (exists v, In (CKA_LOCAL, v) (snd (C_UnwrapKey.app e))) /\ (exists v, In (CKA_ALWAYS_SENSITIVE, v) (snd (C_UnwrapKey.app e))) /\
+     (exists v, In (CKA_NEVER_EXTRACTABLE, v) (snd (C_UnwrapKey.app e)))).
+Proof. exact unwrapped_key_attributes. Qed.
+Print Assumptions C06_unwrapped_key_value_encrypted_when_private.
